@@ -254,4 +254,18 @@ def cases(tier):
         out.append(Case(f"relabel_sv_n{n}", relabel_covariance_sv(n), covers=COVERS, bounds={"atoms": n, "permutations": "all"}, canaries=["no_conjugation"], weight=8**n))
     for n in ([3] if q else [2, 3, 4]):
         out.append(Case(f"initial_state_n{n}", initial_state_permuted(n), covers=COVERS, bounds={"atoms": n, "permutations": "all", "keys": "all pairs of basis strings"}, canaries=["inverse_perm"] if n > 2 else [], weight=30 * n))
+    # the bad-atom mask follows the reordering as well (shared with C25)
+    from harness.c25 import mps_bad_atoms
+
+    out.append(
+        Case(
+            "bad_atom_mask_follows_the_ordering_n3",
+            mps_bad_atoms(3, 2, True, min_good=2),
+            covers=[("emu_mps/mps_backend_impl.py", "MPSBackendImpl.init_dark_qubits"), ("emu_mps/mps_backend_impl.py", "MPSBackendImpl._get_interaction_matrix")],
+            bounds={"atoms": 3, "dim": 2, "masks": "all with >= 2 well-prepared atoms", "permutations": "all"},
+            canaries=["register_order"],
+            weight=400,
+            deadline_s=1500,
+        )
+    )
     return out
